@@ -228,7 +228,7 @@ impl Prop for P {
                 }
                 out.join("/")
             };
-            if let Err(e) = crate::wrap::streamed_files_answer(0, &ops, &bytes, &res.join("/"), &answer) {
+            if let Err(e) = crate::wrap::alt_builds_answer(0, &ops, &bytes, &res.join("/"), &answer) {
                 x = e;
             }
         }
